@@ -695,7 +695,14 @@ func failureLeadsToErrorExit(p *Prog, nc *nilCtx, call *ssa.Call) string {
 			}
 		}
 	}
-	visit(call, false)
+	if tup, isTup := call.Type().(*types.Tuple); isTup && tup.Len() >= 2 && isErrorType(tup.At(tup.Len()-1).Type()) {
+		// (…, err): the verdict is the error
+		if ev := siblingExtract(call, tup.Len()-1); ev != nil {
+			visit(ev, false)
+		}
+	} else {
+		visit(call, false)
+	}
 	if failSucc == nil {
 		return "the result of the attach call is not tested: a node that could not be attached is dropped without an error"
 	}
@@ -1066,7 +1073,9 @@ func rulePAIR5(w *World) []Ob {
 				}
 			})
 			construct := "one counter per node, chosen by isFile"
-			if isFile != nil && nexts["fileCounter@true"] && nexts["dirCounter@false"] && len(nexts) == 2 {
+			if isFile != nil && p.Cfg.Name == "W" && wOnlyFunc(w, isFile.Common().StaticCallee()) {
+				l.bad(fid, construct, p.InstrPos(isFile), "the variant decides what a file is with a predicate of its own ("+p.FuncID(isFile.Common().StaticCallee())+") instead of the one compiled into both builds: the 'N directories, M files' line of the dry-run report is no longer the default build's for every extension list", "colorize")
+			} else if isFile != nil && nexts["fileCounter@true"] && nexts["dirCounter@false"] && len(nexts) == 2 {
 				l.ok(fid, construct, p.Pos(fn.Pos()), "fileCounter.next() on the isFile side, dirCounter.next() on the other", true, "colorize")
 			} else {
 				l.bad(fid, construct, p.Pos(fn.Pos()), "colorize does not increment fileCounter exactly on the isFile side and dirCounter exactly on the other (found "+strings.Join(sortedKeys(nexts), ", ")+")", "colorize")
@@ -1174,6 +1183,10 @@ func rulePAIR6(w *World) []Ob {
 										optIn = true
 									default:
 										if _, _, isField := fieldOfLoad(src); isField {
+											optIn = true
+										}
+										// a comparison of such a value with a constant (indent != "", width > 0)
+										if valueFromOption(src, 0) {
 											optIn = true
 										}
 									}
